@@ -69,9 +69,32 @@ class Folder:
             except (_Return, _Raise):
                 raise Unfoldable('return/raise at module level')
             except Exception as e:      # Unfoldable, or a Python error while applying a pure op: not a constant
+                why = '%s: %s' % (type(e).__name__, e)
                 for n in ast.walk(st):
                     if isinstance(n, ast.Name) and isinstance(n.ctx, ast.Store):
-                        self.unfolded[n.id] = '%s: %s' % (type(e).__name__, e); env.pop(n.id, None)
+                        self.unfolded[n.id] = why; env.pop(n.id, None)
+                # a statement that was only partly interpreted may have changed (or would have changed) any mutable object it can
+                # reach: every name bound to such an object, or to an object that shares structure with one, is no longer a constant
+                if not isinstance(st, (ast.Import, ast.ImportFrom, ast.FunctionDef, ast.ClassDef)) and not (
+                        isinstance(st, ast.Assign) and all(isinstance(t, ast.Name) for t in st.targets)):
+                    def reach(v, acc, depth=0):
+                        if isinstance(v, (dict, list, set)) and id(v) not in acc and depth < 6:
+                            acc.add(id(v))
+                            for x in (list(v.values()) if isinstance(v, dict) else list(v)):
+                                reach(x, acc, depth + 1)
+                        elif isinstance(v, tuple) and depth < 6:
+                            for x in v:
+                                reach(x, acc, depth + 1)
+                        return acc
+                    tainted = set()
+                    for n in ast.walk(st):
+                        if isinstance(n, ast.Name) and isinstance(n.ctx, ast.Load) and n.id in env:
+                            reach(env[n.id], tainted)
+                    if tainted:
+                        for nm in list(env):
+                            if reach(env[nm], set()) & tainted:
+                                self.unfolded[nm] = 'possibly changed by a module-level statement that could not be folded (%s)' % why
+                                env.pop(nm, None)
         return env
 
     # statements ---------------------------------------------------------
@@ -240,6 +263,7 @@ class Folder:
     def e_Attribute(self, e, env):
         v = self.expr(e.value, env)
         if isinstance(v, RegexConst) and e.attr in ('pattern', 'flags'): return getattr(v, e.attr)
+        if isinstance(v, RegexConst) and e.attr in ('match', 'search', 'fullmatch'): return ('rxbound', v, e.attr)
         if isinstance(v, tuple) and v[:1] == ('module',): return ('modattr', v[1], e.attr)
         if isinstance(v, (str, list, dict, tuple, set)): return ('bound', v, e.attr)
         raise Unfoldable('attr %s' % e.attr)
@@ -258,6 +282,13 @@ class Folder:
             if f[1] == 'math' and ('math', f[2]) in PURE_EXTERNAL:
                 return PURE_EXTERNAL[('math', f[2])](*args, **kw)
             raise Unfoldable('call %s.%s' % f[1:])
+        if isinstance(f, tuple) and f[0] == 'rxbound':
+            # a compiled pattern applied to a constant: the stdlib regex engine on folded data (pattern and subject are constants)
+            if len(args) != 1 or kw or not isinstance(args[0], str): raise Unfoldable('regex call arguments')
+            fl = f[1].flags
+            if isinstance(fl, tuple) and fl[:2] == ('modattr', 're') and hasattr(re, fl[2]): fl = int(getattr(re, fl[2]))
+            if not isinstance(fl, int): raise Unfoldable('regex flags')
+            return getattr(re.compile(f[1].pattern, fl), f[2])(args[0])
         if isinstance(f, tuple) and f[0] == 'bound':
             _, obj, name = f
             if isinstance(obj, str) and name in STR_METHODS: return getattr(obj, name)(*args, **kw)
